@@ -32,6 +32,10 @@ pub struct Case {
     w: W,
     /// position of the probed entry among 1..3 sibling assets (others hold valid quantities)
     slot: u8,
+    /// write the `[coin, multiasset]` pair of a value as an indefinite-length array (value sites only). Whether that
+    /// framing is accepted at all is not judged; if it is, the same rules hold.
+    #[serde(default)]
+    indef: bool,
 }
 
 impl Case {
@@ -81,15 +85,15 @@ fn body(extra: Vec<(u64, Node)>, out_value: Node) -> Node {
 fn probe(c: &Case) -> (Vec<u8>, Result<i128, String>) {
     let p = c.node();
     let coin = cborx::uint(2_000_000);
+    let pair = |a: Node, b: Node| if c.indef { cborx::array_indef(vec![a, b]) } else { cborx::array(vec![a, b]) };
     let find_asset = |ma: &std::collections::BTreeMap<conway::PolicyId, std::collections::BTreeMap<conway::AssetName, PositiveCoin>>| -> i128 {
-        let inner = ma.values().next().unwrap();
         let key: conway::AssetName = vec![b'a' + c.slot % 3].into();
-        u64::from(inner[&key]) as i128
+        // -998: the probed asset is not in the decoded value at all (silently dropped)
+        ma.values().next().and_then(|inner| inner.get(&key)).map(|q| u64::from(*q) as i128).unwrap_or(-998)
     };
     let find_mint = |ma: &conway::Mint| -> i128 {
-        let inner = ma.values().next().unwrap();
         let key: conway::AssetName = vec![b'a' + c.slot % 3].into();
-        i64::from(inner[&key]) as i128
+        ma.values().next().and_then(|inner| inner.get(&key)).map(|q| i64::from(*q) as i128).unwrap_or(-998)
     };
     let out_val = |v: &conway::Value| -> i128 {
         match v {
@@ -115,7 +119,7 @@ fn probe(c: &Case) -> (Vec<u8>, Result<i128, String>) {
             (b, r)
         }
         Site::ValueAsset => {
-            let b = cborx::write(&cborx::array(vec![coin, multiasset(p, c.slot, 5)]));
+            let b = cborx::write(&pair(coin, multiasset(p, c.slot, 5)));
             let r = minicbor::decode::<conway::Value>(&b).map(|v| out_val(&v)).map_err(|e| e.to_string());
             (b, r)
         }
@@ -132,7 +136,7 @@ fn probe(c: &Case) -> (Vec<u8>, Result<i128, String>) {
             (b, r)
         }
         Site::BodyOutputAsset => {
-            let b = cborx::write(&body(vec![], cborx::array(vec![coin, multiasset(p, c.slot, 5)])));
+            let b = cborx::write(&body(vec![], pair(coin, multiasset(p, c.slot, 5))));
             let r = minicbor::decode::<conway::TransactionBody>(&b).map(|t| tx_out(&t.outputs[0])).map_err(|e| e.to_string());
             (b, r)
         }
@@ -144,7 +148,7 @@ fn probe(c: &Case) -> (Vec<u8>, Result<i128, String>) {
             (b, r)
         }
         Site::BodyCollateralReturnAsset => {
-            let ret = output(cborx::array(vec![coin.clone(), multiasset(p, c.slot, 5)]));
+            let ret = output(pair(coin.clone(), multiasset(p, c.slot, 5)));
             let b = cborx::write(&body(vec![(16, ret)], coin));
             let r = minicbor::decode::<conway::TransactionBody>(&b)
                 .map(|t| t.collateral_return.as_ref().map(tx_out).unwrap_or(-999))
@@ -170,6 +174,9 @@ fn check(c: &Case, obs: &mut Obs) -> Result<(), Fail> {
                 "{} decodes at {site} although the quantity is zero (decoded value {x})", hex::encode(&bytes));
             pv_ensure!(*x != 0, format!("zero-produced:{site}"), "{} decoded to a wrapper holding zero", hex::encode(&bytes));
             pv_ensure!(*x == num, format!("wrong-value:{site}"), "{} encodes {num} but decoded to {x}", hex::encode(&bytes));
+        }
+        Err(_) if c.indef => {
+            obs.class(format!("{site}:indefinite-framing-refused"));
         }
         Err(e) => {
             pv_ensure!(!in_range, format!("valid-rejected:{site}"),
@@ -291,7 +298,10 @@ pub fn run(s: &Session) {
             for &v in &mags {
                 for w in W::options(v) {
                     for slot in 0..3u8 {
-                        fam.push(Case { site, neg, v, w, slot });
+                        fam.push(Case { site, neg, v, w, slot, indef: false });
+                        if matches!(site, Site::ValueAsset | Site::BodyOutputAsset | Site::BodyCollateralReturnAsset) {
+                            fam.push(Case { site, neg, v, w, slot, indef: true });
+                        }
                     }
                 }
             }
@@ -332,7 +342,7 @@ pub fn run(s: &Session) {
         || {
             (0usize..SITES.len(), any::<bool>(), prop_oneof![Just(0u64), 0u64..30, any::<u64>()], 0usize..5, 0u8..3).prop_map(|(si, neg, v, wi, slot)| {
                 let opts = W::options(v);
-                Case { site: SITES[si], neg, v, w: opts[wi % opts.len()], slot }
+                Case { site: SITES[si], neg, v, w: opts[wi % opts.len()], slot, indef: slot % 2 == 1 && wi % 3 == 0 }
             })
         },
         check,
